@@ -65,7 +65,8 @@ func buildGarble(extraTags string, race bool) *GarbleBin {
 		if len(ents) > 3 {
 			sort.Slice(ents, func(i, j int) bool { return mtime(ents[i]).After(mtime(ents[j])) })
 			for _, e := range ents[3:] {
-				if e != final {
+				// Other vf processes (evaluating other trees) may still be using older binaries.
+				if e != final && time.Since(mtime(e)) > 6*time.Hour {
 					os.Remove(e)
 				}
 			}
@@ -408,7 +409,7 @@ func warmPool(g *GarbleBin, withTest bool, cfgs ...Config) *Pool {
 		if len(ents) > 3 {
 			sort.Slice(ents, func(i, j int) bool { return mtime(ents[i]).After(mtime(ents[j])) })
 			for _, e := range ents[3:] {
-				if e != dir {
+				if e != dir && time.Since(mtime(e)) > 6*time.Hour {
 					chmodAndRemove(e)
 				}
 			}
